@@ -36,6 +36,18 @@ pub fn channels<T: DeserializeOwned + Serialize + 'static>(text: &str) -> Vec<(&
     out
 }
 
+/// compact text of a value with the members of every object in reverse (descending) order
+fn reverse_members(v: &Value) -> String {
+    match v {
+        Value::Object(m) => {
+            let items: Vec<String> = m.iter().rev().map(|(k, x)| format!("{}:{}", Value::String(k.clone()), reverse_members(x))).collect();
+            format!("{{{}}}", items.join(","))
+        }
+        Value::Array(xs) => format!("[{}]", xs.iter().map(reverse_members).collect::<Vec<_>>().join(",")),
+        x => x.to_string(),
+    }
+}
+
 fn case<T: DeserializeOwned + Serialize + 'static>(sink: &mut Sink, r: &mut Rng, ty: &str, doc: &Value) {
     let texts = vec![("compact", doc.to_string()), ("pretty", serde_json::to_string_pretty(doc).unwrap()), ("respelled", spell(doc, r)), ("respelled2", spell(doc, r))];
     // texts that are not one JSON document: every channel must reject them alike (each group is
@@ -83,11 +95,22 @@ fn case<T: DeserializeOwned + Serialize + 'static>(sink: &mut Sink, r: &mut Rng,
     // near-valid documents: one leaf replaced by a neighbour of its value (other length in bytes or
     // characters, other case, decorated, out of range ...). Whatever the verdict is, every channel and
     // every spelling must give the same one.
-    let edits = if r.chance(1, 3) { crate::c05::leaf_edits(doc, r) } else { vec![] };
-    let take = edits.len().min(8);
-    for _ in 0..take {
-        let (path, d2) = &edits[r.below(edits.len())];
-        let texts = [("compact", d2.to_string()), ("respelled", spell(d2, r))];
+    let mut near: Vec<(String, Value)> = vec![];
+    if r.chance(1, 3) {
+        let edits = crate::c05::leaf_edits(doc, r);
+        for _ in 0..edits.len().min(6) {
+            near.push(edits[r.below(edits.len())].clone());
+        }
+    }
+    // structural mutations of any node (member deleted / renamed / added - also as another spelling of a
+    // member that is already there -, value of another shape)
+    for _ in 0..2 {
+        near.push(("mutation".to_string(), crate::c16_doc::mutate(doc, r)));
+    }
+    for (path, d2) in &near {
+        // member order in the text: sorted (as a JSON tree holds them) and reversed
+        let rev = reverse_members(d2);
+        let texts = [("compact", d2.to_string()), ("respelled", spell(d2, r)), ("reversed", rev)];
         let mut first: Option<String> = None;
         for (sp, text) in &texts {
             let ans = channels::<T>(text);
